@@ -10,6 +10,7 @@ from .. import gen
 from ..core import case_nprng
 from ..oracles import arith
 
+PIGGY = True  # thorough tier also runs the repository tests / howtos / examples under these monitors
 LEVEL = "exploration"
 BUDGET = {"quick": 50, "thorough": 330}
 SHARDS = {"quick": 1, "thorough": 16}
